@@ -174,7 +174,9 @@ def _plain_lzw(v):
 
 NUM_TOKEN = re.compile(rb"(?<![\w.#/<(\[-])[-+]?(?:\d+\.?\d*|\.\d+)(?![\w.>)])")
 OPERAND_REPL = [b"/N", b"(s)", b"[1]", b"<< >>", b"", b"9" * 400, b"1" + b"0" * 30 + b".5", b"-", b"null",
-                b"9" * 400 + b".5", b"-" + b"9" * 400 + b".5"]
+                b"9" * 400 + b".5", b"-" + b"9" * 400 + b".5",
+                # finite, but products of two such operands overflow to infinity (and infinity times zero is NaN)
+                b"1" + b"0" * 308, b"-1" + b"0" * 308 + b".0"]
 
 
 # trailer / cross-reference-stream dictionary entries; values REPL[r], then "SELFPOS" (the file's own startxref offset:
